@@ -22,7 +22,7 @@ CLAIMS = {
             "CRC-16/MODBUS computed by TLC itself (Rtu.tla): every frame the session emits must equal RtuFrame(..), and corrupted request frames (all 1-bit, sampled 2-bit, bursts <= 16 bits, several chunkings) must produce exactly what RtuHead prescribes on the corrupted stream (no call, no reply, session error); damage in the byte-count field followed by as many port re-opens as the reader needs (session level and the RTU server task under virtual time); both roles additionally on a real serial device (pseudo-terminal opened by tokio_serial, no hook): RTU channel task and RTU server task, frames on the bus compared with RtuFrame(..)",
             "§7 C06", TRUST + "long-frame corruptions are sampled in the quick tier"),
     "C07": ("e1-session", "exploration",
-            "structured fuzzing (random bytes, grammar-aware mutation, boundary addresses, decode levels, both framings) of the production session under overflow checks; TLC validates every run against the total reference: a panic, a task that never becomes idle, or an unhonoured shutdown has no matching specification step",
+            "structured fuzzing (random bytes, grammar-aware mutation, boundary addresses, decode levels, both framings) of the production session under overflow checks; TLC validates every run against the total reference: a panic, a task that never becomes idle, or an unhonoured shutdown has no matching specification step; RTU length boundary in both roles; peers that dribble well-formed foreign frames faster than the timeout; hostile bytes on some sessions of a real TCP / TLS server task while the others must be served (isolation)",
             "§7 C07", TRUST + "input coverage is that of a fuzzer, not of a model checker"),
     "C08": ("e1-session", "model_checking",
             "authorization modelled in ServerRef.tla (policy functions of kind, unit, range, role); grid of 8 kinds x allow/deny/read-only x configured/unconfigured/broadcast unit x role strings, plus random per-request hash policies; trace validation requires the single auth event with exact arguments before any effect and exception 01 with no handler call on deny",
@@ -37,19 +37,19 @@ CLAIMS = {
 
 CLAIMS.update({
     "C03": ("e2-client", "model_checking",
-            "Client.tla + ModbusPdu.tla (EncodeRequest / ClientRequestValid) evaluated by TLC judge every recorded execution of the production request loop: the request lattice (kind x start x count / value-list length incl. 0, limit+-1, overflow, > 65535 values) is submitted through Channel and CallbackSession on TCP and RTU framing; each request must be transmitted as exactly the TLC-computed frame or complete with an error and no tx; TxBounded is an invariant on every state",
+            "Client.tla + ModbusPdu.tla (EncodeRequest / ClientRequestValid) evaluated by TLC judge every recorded execution of the production request loop: the request lattice (kind x start x count / value-list length incl. 0, limit+-1, overflow, > 65535 values) is submitted through Channel and CallbackSession on TCP and RTU framing; each request must be transmitted as exactly the TLC-computed frame or complete with an error and no tx; TxBounded is an invariant on every state; one frame per request also with stale / future / partial frames arriving meanwhile; all 2^32 arguments of the AddressRange constructor are enumerated on the real code and the per-count summary of what was accepted is judged by RangeSummary.tla against ModbusPdu!ValidRange",
             "§7 C03", TRUST + "AddressRange built with its constructor; FfiChannel path covered by the C18 engine"),
     "C04": ("e2-client", "model_checking",
             "for every request kind and a range lattice the reply classes (correct, other function bytes, exceptions with all/sampled codes, truncated / extended, byte-count lies, echo variations) are delivered to the production loop; the value handed to the future / callback must be exactly DecodeResponse(request, pdu) as evaluated by TLC",
             "§7 C04", TRUST + "reply space covered by classes + sampling"),
     "C10": ("e2-client", "model_checking",
-            "Client.tla is an explicit state machine of the channel task (queue, blocked senders, in-flight request, timers, promise drops); random interleavings of submissions, replies, timeouts, I/O faults, enable/disable, decode, shutdown, handle drops and abort are recorded under virtual time and validated by TLC: each completion must be the output of a specification step (class included), each request completes exactly once (a second completion has no step, a missing one blocks the next scenario boundary)",
+            "Client.tla is an explicit state machine of the channel task (queue, blocked senders, in-flight request, timers, promise drops); random interleavings of submissions, replies, timeouts, I/O faults, enable/disable, decode, shutdown, handle drops and abort are recorded under virtual time and validated by TLC: each completion must be the output of a specification step (class included), each request completes exactly once (a second completion has no step, a missing one blocks the next scenario boundary); design level: Client_MC in task / session / serial mode incl. liveness under fairness (the task comes to rest owing nothing); behaviours simulated by TLC from Client.tla replayed on the production task; command / connect-completion races",
             "§7 C10", TRUST + "tokio paused clock; lock-step harness (inputs only at quiescence)"),
     "C11": ("e2-client", "model_checking",
-            "transaction-id discipline of Client.tla at TxMod = 65536 validated on recorded runs: stale / future / duplicate / unsolicited frames at every relation to the outstanding request, invalid requests that still consume an id, FIFO transmission with one outstanding request (invariant OneOutstanding), and (thorough) 66 000 requests across the 16-bit wrap",
+            "transaction-id discipline of Client.tla at TxMod = 65536 validated on recorded runs: stale / future / duplicate / unsolicited frames at every relation to the outstanding request, invalid requests that still consume an id, FIFO transmission with one outstanding request (invariant OneOutstanding), and (thorough) 66 000 requests across the 16-bit wrap; late replies straddling the deadline; the id sequence across connections; the id arithmetic at its real size proved with TLAPS (TxIdProof)",
             "§7 C11", TRUST + "tx ids of scripted replies are derived mechanically from the last transmitted frame"),
     "C12": ("e2-client", "model_checking",
-            "virtual time makes 'exactly at the deadline' observable: Timeout is enabled iff now >= deadline and every input/quiescence event requires that no task step is enabled, so an early, late or extended timeout, a missed drop after N consecutive timeouts or a counter that is not restarted is a rejection; whole and split replies at deadline-1/0/+1, foreign frames that must not move the deadline, outcome sequences x limits, partial frame across reconnect",
+            "virtual time makes 'exactly at the deadline' observable: Timeout is enabled iff now >= deadline and every input/quiescence event requires that no task step is enabled, so an early, late or extended timeout, a missed drop after N consecutive timeouts or a counter that is not restarted is a rejection; whole and split replies at deadline-1/0/+1, foreign frames that must not move the deadline, outcome sequences x limits, partial frame across reconnect, discarded frames that are not outcomes, and a transport that takes the request late (the timeout runs from the transmission: WriteHold in Client.tla, held writes in the scripted stream)",
             "§7 C12", TRUST + "time advances only by scripted ticks"),
     "C13": ("e3-lifecycle", "model_checking",
             "the life-cycle part of Client.tla (Start, BeginConnect, Attempt, FailNext, Connected, ConnFailed, WaitExpired, Post, Stopping) judges recorded runs of the production TcpChannelTask and (mode serial: PortState listener, synchronous open) of the production SerialChannelTask under virtual time: every command and fault at every life-cycle location, random scripts and behaviours simulated by TLC from the same specification; RtuServerTaskTrace.tla does the same for the RTU server task (open / session / re-open loop, shutdown and handle drop from every state); listener events, connection attempts and completions must be outputs of specification steps in that order; FailFast is an invariant; inputs require quiescence, so a request left queued while down or an attempt while disabled is a rejection",
@@ -61,7 +61,7 @@ CLAIMS.update({
             "TlsAdmission.tla is the admission reference (minimum version, certificate validity per mode, single role extension); TlsAdmission_MC checks it against the statements of C09 over the whole configuration x peer grid; real handshakes on loopback between rodbus TLS servers (Rust and C ABI constructors, authority and self-signed modes, min 1.2 / 1.3, with and without authorization) and an independently configured rustls peer with pinned versions and fixture certificates are validated by TLC: outcome, negotiated version and the role seen by the authorization handler",
             "§7 C09", TRUST + "rustls/webpki/ring internals; fixture certificate facts tabulated in TlsAdmission!CertInfo; both roles: rodbus servers against a rustls client peer and the rodbus TLS client against a rustls server peer"),
     "C15": ("e4-servertask", "model_checking",
-            "ServerTaskTrace.tla models the tracker (ids in age order), per-connection fate and the shared database; random histories of connects / requests / closes / malformed headers / half frames / decode changes / shutdown / handle drop with max_sessions 0..3 on loopback TCP, and TLS servers with sessions stalled in the handshake, are validated by TLC using the tracker hook events (size <= max, evicted = oldest at every step) and the peers' view (reply computed by the reference server, EOF, refused); a session may leave the tracker only for a cause on its own connection (isolation)",
+            "ServerTaskTrace.tla models the tracker (ids in age order), per-connection fate and the shared database; random histories of connects / requests / closes / malformed headers / half frames / decode changes / shutdown / handle drop with max_sessions 0..3 on loopback TCP, and TLS servers with sessions stalled in the handshake, are validated by TLC using the tracker hook events (size <= max, evicted = oldest at every step) and the peers' view (reply computed by the reference server, EOF, refused); a session may leave the tracker only for a cause on its own connection (isolation); design level: ServerTask_MC (bounded queues, peers that stop reading or close, liveness of shutdown, negative control F14) and behaviours simulated from it by TLC (ServerTask_Sim) replayed on the production server task; close bursts also on a current-thread runtime, where they are deterministic",
             "§7 C15", TRUST + "eviction / close timing is observed through hook events and bounded waits (no deterministic scheduler under tokio)"),
     "C16": ("e4-servertask", "model_checking",
             "AddressFilter.tla (Matches, WildcardClass) evaluated by TLC judges the hook-reported filter decision and the peer's view for filters {any, exact, set, wildcard lattice} x aliased loopback sources (IPv4 and ::1) x {TCP, TLS, TLS+authz} x {Rust API, C ABI}, and 3 000+ wildcard strings through WildcardIPv4::from_str and rodbus_address_filter_create",
@@ -70,7 +70,7 @@ CLAIMS.update({
             "FfiTrace.tla holds the conversion tables (WriteResult -> exception byte, exception / error -> request_error value, param_error for argument errors), the wire encoding and decoding (ModbusPdu.tla) and the completion protocol; every scenario is executed through the extern \"C\" functions (C-ABI server with programmable write callbacks observed by a raw client; C-ABI client channel against a scripted peer) and the recorded return codes, wire bytes, callback invocations (which, payload, count) and on_destroy counts are validated by TLC; configuration crossing the boundary is observed where it takes effect: queue depth, retry strategy (instants of the connection attempts), decode levels (the log of a C-ABI channel equals the log of a Rust channel at the same-named level), TLS client configuration (admission judged by TlsAdmission.tla), serial settings / PortState / RTU framing of RTU channels and servers (verif-hooks port opener)",
             "§7 C18", TRUST + "rodbus-ffi linked as rlib; language wrappers above the C ABI not exercised; for calls that report an argument error the error value passed to the completion is not prescribed, only that it fires exactly once"),
     "C19": ("e5-ffi", "model_checking",
-            "per-type map semantics of the C-ABI database (add / update / delete / get, client reads, exception 02 on absent points) validated by TLC on random transaction / read sequences through rodbus_server_update_database and a raw client; atomicity: design-level all-interleavings model FfiDatabase_MC (lock per transaction holds, lock per operation is refuted as negative control) plus a stress run on the real code (writers setting a 125-register / 2000-coil block to one value, readers requiring uniform blocks; one run per point type, since each type has its own read path)",
+            "per-type map semantics of the C-ABI database (add / update / delete / get, client reads, exception 02 on absent points) validated by TLC on random transaction / read sequences through rodbus_server_update_database and a raw client; atomicity: design-level all-interleavings model FfiDatabase_MC (lock per transaction holds, lock per operation is refuted as negative control) plus a stress run on the real code (writers setting a 125-register / 2000-coil block to one value, readers requiring uniform blocks; one run per point type, since each type has its own read path; two transactions adding the same absent index at the same instant: exactly one succeeds)",
             "§7 C19", TRUST + "atomicity on the real code is stress-sampled, as the property itself says"),
 })
 
